@@ -648,9 +648,11 @@ static void build_ops() {
       Cell m0 = ref::meet(before, *q);
       bool inter_empty = ref::is_empty(m0);
       if ((ret == "false") != inter_empty) return "simplify:return-value";
-      if (inter_empty) return "";   // result unspecified beyond the Boolean
+      // documented (definitions.dox, "Meet-Preserving Enlargement and Simplification"): the result R is
+      // meet-preserving (R /\ Q = P /\ Q, also when that meet is empty) and an enlargement (R contains P)
       Cell m1 = ref::meet(after, *q);
-      if (!ref::equal(m0, m1)) return "simplify:meet-not-preserved";
+      if (!ref::equal(m0, m1)) return inter_empty ? "simplify:empty-meet-not-preserved" : "simplify:meet-not-preserved";
+      if (!ref::subset(before, after)) return "simplify:not-an-enlargement";
       return ""; };
     add_op(o); }
 }
